@@ -231,6 +231,7 @@ theorem follow_ups_in_any_history (h : Handler) (t : Nat) (evs : List Ev) (κ : 
     (hreqs : ∀ e ∈ evs.filter (fun e => e.key = κ), e.isResp = false)
     (hcs : cached.options.Sorted) (hck : ∀ kv ∈ cached.options, kv.1 ≤ 65535)
     (hc : st.cachedResponse = some cached)
+    (hle : ∀ x, st.cachedSzx = some x → szx ≤ x)
     (reqs : List Request) (hκ : (evs.filter (fun e => e.key = κ)).map (·.req) = reqs)
     (hfu : ∀ i (hlt : i < reqs.length), IsFollowUp h.maxSize reqs[i] (k + i) szx)
     (hne : reqs ≠ [])
@@ -245,7 +246,7 @@ theorem follow_ups_in_any_history (h : Handler) (t : Nat) (evs : List Ev) (κ : 
     rw [transfer_from_state h t evs κ st hi hm hsp hst, runKey_requests _ _ _ hreqs,
       runCore_index_irrelevant _ _ (reqs.map (fun r => (0, r))) _
         (by rw [map_snd_ev, map_snd_pair]; exact hκ)]
-  obtain ⟨d1, d2, _⟩ := download_tail h.maxSize cached szx hcs hck reqs k st hc hfu hne hlast hcover
+  obtain ⟨d1, d2, _⟩ := download_tail h.maxSize cached szx hcs hck reqs k st hc hle hfu hne hlast hcover
   rw [(fetchAll_eq_runCore h.maxSize reqs st).1] at d1 d2
   rw [hobs]
   constructor
